@@ -543,6 +543,18 @@ def fini_toplevel(
                     name=pg_types.pg_type_from_ir_typeref(param.ir_type)
                 )
             )))
+        # The "present" flags of optional globals with defaults are
+        # separate SQL parameters and can be unused on their own.
+        for param in ctx.env.query_params:
+            if not (isinstance(param, irast.Global) and param.has_present_arg):
+                continue
+            present = ctx.argmap.get(param.name + "present__")
+            if present is None or present.index in used:
+                continue
+            targets.append(pgast.ResTarget(val=pgast.TypeCast(
+                arg=pgast.ParamRef(number=present.index),
+                type_name=pgast.TypeName(name=('bool',)),
+            )))
         if targets:
             stmt.append_cte(
                 pgast.CommonTableExpr(
